@@ -668,3 +668,364 @@ c16_loop!(c16t_loop_b1_b1_stateless_env, 1, 1, true, true);
 c16_loop!(c16_loop_b2_b1_stateless, 2, 1, true, false);
 c16_loop!(c16t_loop_b2_b2_stateless, 2, 2, true, false);
 c16_loop!(c16t_loop_b1_b2, 1, 2, false, false);
+
+// ---------------------------------------------------------------------------------------------------------
+// The schema-validation gate and what leaves the process with a request: the head of stream_openresponses_request up to
+// and including the HTTP send (gen/slice_agent_loop.py, second output: verbatim, `.await` removed, the explicit
+// `crate::openresponses_observability::` path rewritten to a model module). Texts that matter are a model type carrying a
+// SECRET taint (api key, header values) so that the same run also decides where the key can flow (C19's "key attached only
+// to the outgoing HTTP request"): into bearer_auth / header of the outgoing request and nowhere else -- no frame, no dump.
+// ---------------------------------------------------------------------------------------------------------
+mod request_gate {
+    #![allow(unused)]
+    pub type StdString = ::std::string::String;
+    #[derive(Clone, Copy, PartialEq, Debug)]
+    pub struct String {
+        pub id: u8,
+        pub secret: bool,
+    }
+    #[repr(transparent)]
+    pub struct StrRef(pub String);
+    impl core::ops::Deref for String {
+        type Target = StrRef;
+        fn deref(&self) -> &StrRef {
+            unsafe { &*(self as *const String as *const StrRef) }
+        }
+    }
+    impl String {
+        pub fn to_string(&self) -> String {
+            *self
+        }
+    }
+    impl Default for String {
+        fn default() -> String {
+            String { id: 0, secret: false }
+        }
+    }
+    pub struct World {
+        pub frames: u32,
+        pub frame_seqs_ok: bool,
+        pub next_frame_seq: u64,
+        pub validation_frames: u32,
+        pub started_frames: u32,
+        pub started_before_send: bool,
+        pub transport_error_frames: u32,
+        pub secret_in_frame: bool,
+        pub secret_in_dump: bool,
+        pub dumps: u32,
+        pub dump_answer: u8, // 0 disabled, 1 dumped (a frame), 2 failed
+        pub posts: u32,
+        pub sends: u32,
+        pub sent_body: u8,
+        pub sent_auth: Option<String>,
+        pub sent_headers: u32,
+        pub sent_header_value: Option<String>,
+        pub send_ok: bool,
+    }
+    pub struct ValidationOptions;
+    impl ValidationOptions {
+        pub fn compat_missing_item_ids() -> Self {
+            ValidationOptions
+        }
+        pub fn strict() -> Self {
+            ValidationOptions
+        }
+    }
+    pub struct ModelVal(pub String);
+    impl ModelVal {
+        pub fn as_str(&self) -> Option<&String> {
+            Some(&self.0)
+        }
+    }
+    pub struct Body {
+        pub id: u8,
+        pub model: Option<ModelVal>,
+    }
+    impl Body {
+        pub fn to_string(&self) -> String {
+            String { id: self.id, secret: false }
+        }
+        pub fn get(&self, key: &str) -> Option<&ModelVal> {
+            self.model.as_ref()
+        }
+    }
+    pub struct CreateResponsePayload {
+        pub body: Body,
+        pub errors: [String; 1],
+        pub n_errors: usize,
+    }
+    impl CreateResponsePayload {
+        pub fn errors(&self) -> &[String] {
+            &self.errors[..self.n_errors]
+        }
+        pub fn body(&self) -> &Body {
+            &self.body
+        }
+    }
+    pub struct OpenResponsesConfig {
+        pub endpoint: String,
+        pub api_key: Option<String>,
+        pub headers: [(String, String); 1],
+        pub stateless_history: bool,
+    }
+    pub struct Uuid;
+    impl Uuid {
+        pub fn new_v4() -> Uuid {
+            Uuid
+        }
+        pub fn to_string(&self) -> u8 {
+            0
+        }
+    }
+    pub fn now_ms() -> u64 {
+        0
+    }
+    pub mod rip_kernel {
+        use super::{StdString, String};
+        pub enum ProviderEventStatus {
+            Event,
+        }
+        pub enum EventKind {
+            ProviderEvent {
+                provider: StdString,
+                status: ProviderEventStatus,
+                event_name: Option<String>,
+                data: Option<String>,
+                raw: Option<String>,
+                errors: Vec<String>,
+                response_errors: Vec<String>,
+            },
+            OpenResponsesRequestStarted {
+                endpoint: String,
+                model: Option<String>,
+                request_index: u64,
+                kind: StdString,
+            },
+            OpenResponsesRequest {
+                endpoint: String,
+            },
+            TransportError,
+        }
+    }
+    pub use rip_kernel::EventKind;
+    pub struct Event {
+        pub id: u8,
+        pub session_id: StdString,
+        pub timestamp_ms: u64,
+        pub seq: u64,
+        pub kind: EventKind,
+    }
+    #[derive(Clone, Copy)]
+    pub struct EventSink<'a> {
+        pub w: *mut World,
+        pub _p: core::marker::PhantomData<&'a ()>,
+    }
+    fn sec(o: &Option<String>) -> bool {
+        match o {
+            Some(s) => s.secret,
+            None => false,
+        }
+    }
+    impl<'a> EventSink<'a> {
+        pub fn emit(&self, ev: Event) {
+            let w = unsafe { &mut *self.w };
+            w.frames += 1;
+            if ev.seq != w.next_frame_seq {
+                w.frame_seqs_ok = false;
+            }
+            w.next_frame_seq = ev.seq + 1;
+            match &ev.kind {
+                EventKind::ProviderEvent { raw, errors, event_name, data, .. } => {
+                    w.validation_frames += 1;
+                    if sec(raw) || sec(event_name) || sec(data) || (errors.len() > 0 && errors[0].secret) {
+                        w.secret_in_frame = true;
+                    }
+                }
+                EventKind::OpenResponsesRequestStarted { endpoint, model, .. } => {
+                    w.started_frames += 1;
+                    w.started_before_send = w.sends == 0;
+                    if endpoint.secret || sec(model) {
+                        w.secret_in_frame = true;
+                    }
+                }
+                EventKind::OpenResponsesRequest { endpoint } => {
+                    if endpoint.secret {
+                        w.secret_in_frame = true;
+                    }
+                }
+                EventKind::TransportError => {
+                    w.transport_error_frames += 1;
+                }
+            }
+            core::mem::forget(ev);
+        }
+    }
+    pub struct ModelPath;
+    pub mod openresponses_observability {
+        use super::*;
+        pub struct Cfg(pub *mut World);
+        pub static mut DUMP_WORLD: *mut World = core::ptr::null_mut();
+        pub fn request_dump_config_from_env() -> u8 {
+            0
+        }
+        pub struct OpenResponsesRequestDumpInput<'a> {
+            pub workspace_root: &'a ModelPath,
+            pub session_id: &'a str,
+            pub timestamp_ms: u64,
+            pub seq: u64,
+            pub endpoint: &'a String,
+            pub request_index: u64,
+            pub kind: &'a str,
+            pub body: &'a Body,
+        }
+        pub fn maybe_dump_openresponses_request(_cfg: u8, input: OpenResponsesRequestDumpInput<'_>) -> Result<Option<Event>, StdString> {
+            // the world is reached through the workspace-root model's owner: see ModelRoot below
+            let w = unsafe { &mut *(*(input.workspace_root as *const ModelPath as *const ModelRoot)).1 };
+            w.dumps += 1;
+            if input.endpoint.secret {
+                w.secret_in_dump = true;
+            }
+            match w.dump_answer {
+                0 => Ok(None),
+                1 => Ok(Some(Event { id: 0, session_id: StdString::new(), timestamp_ms: input.timestamp_ms, seq: input.seq,
+                                     kind: EventKind::OpenResponsesRequest { endpoint: *input.endpoint } })),
+                _ => Err(StdString::new()),
+            }
+        }
+    }
+    #[repr(C)]
+    pub struct ModelRoot(pub ModelPath, pub *mut World);
+    pub struct ModelHttp(pub *mut World);
+    pub struct RequestBuilder(*mut World);
+    impl ModelHttp {
+        pub fn post(&self, endpoint: &String) -> RequestBuilder {
+            let w = unsafe { &mut *self.0 };
+            w.posts += 1;
+            RequestBuilder(self.0)
+        }
+    }
+    pub struct ModelResponse;
+    pub struct ModelSendError;
+    impl ModelSendError {
+        pub fn to_string(&self) -> StdString {
+            StdString::new()
+        }
+    }
+    impl RequestBuilder {
+        pub fn json(self, body: &Body) -> RequestBuilder {
+            let w = unsafe { &mut *self.0 };
+            w.sent_body = body.id;
+            self
+        }
+        pub fn bearer_auth(self, key: &StrRef) -> RequestBuilder {
+            let w = unsafe { &mut *self.0 };
+            w.sent_auth = Some(key.0);
+            self
+        }
+        pub fn header(self, _name: &String, value: &String) -> RequestBuilder {
+            let w = unsafe { &mut *self.0 };
+            w.sent_headers += 1;
+            w.sent_header_value = Some(*value);
+            self
+        }
+        pub fn send(self) -> Result<ModelResponse, ModelSendError> {
+            let w = unsafe { &mut *self.0 };
+            w.sends += 1;
+            if w.send_ok {
+                Ok(ModelResponse)
+            } else {
+                Err(ModelSendError)
+            }
+        }
+    }
+    pub struct ToolCallCollector;
+    pub struct OpenResponsesSsePipe<'a> {
+        seq: &'a mut u64,
+        sink: EventSink<'a>,
+    }
+    impl<'a> OpenResponsesSsePipe<'a> {
+        pub fn new(_sid: &str, seq: &'a mut u64, sink: EventSink<'a>, _c: Option<&'a mut ToolCallCollector>, _v: ValidationOptions) -> Self {
+            OpenResponsesSsePipe { seq, sink }
+        }
+        pub fn emit_transport_error(&mut self, _e: StdString) {
+            self.sink.emit(Event { id: 0, session_id: StdString::new(), timestamp_ms: 0, seq: *self.seq, kind: EventKind::TransportError });
+            *self.seq += 1;
+        }
+    }
+    pub struct OpenResponsesStreamRequest<'a> {
+        pub http: &'a ModelHttp,
+        pub config: &'a OpenResponsesConfig,
+        pub workspace_root: &'a ModelPath,
+        pub session_id: &'a str,
+        pub payload: CreateResponsePayload,
+        pub request_index: u64,
+        pub request_kind: &'a str,
+        pub seq: &'a mut u64,
+        pub sink: EventSink<'a>,
+        pub collector: &'a mut ToolCallCollector,
+    }
+    include!("/verif/harness/gen/request_gate_slice.rs");
+}
+
+macro_rules! c16_gate {
+    ($name:ident, $invalid:expr) => {
+        #[kani::proof]
+        #[kani::unwind(4)]
+        fn $name() {
+            use request_gate::*;
+            let seq0: u64 = kani::any();
+            kani::assume(seq0 < u64::MAX - 8);
+            let mut world = World { frames: 0, frame_seqs_ok: true, next_frame_seq: seq0, validation_frames: 0, started_frames: 0, started_before_send: false,
+                                    transport_error_frames: 0, secret_in_frame: false, secret_in_dump: false, dumps: 0, dump_answer: kani::any(),
+                                    posts: 0, sends: 0, sent_body: 0, sent_auth: None, sent_headers: 0, sent_header_value: None, send_ok: kani::any() };
+            kani::assume(world.dump_answer < 3);
+            let wp: *mut World = &mut world;
+            let http = ModelHttp(wp);
+            let has_key: bool = kani::any();
+            let key = String { id: b'k', secret: true };
+            let hval = String { id: b'h', secret: true };
+            let config = OpenResponsesConfig { endpoint: String { id: b'e', secret: false }, api_key: if has_key { Some(key) } else { None },
+                                               headers: [(String { id: b'n', secret: false }, hval)], stateless_history: kani::any() };
+            let root = ModelRoot(ModelPath, wp);
+            let has_model: bool = kani::any();
+            let payload = CreateResponsePayload { body: Body { id: b'B', model: if has_model { Some(ModelVal(String { id: b'm', secret: false })) } else { None } },
+                                                  errors: [String { id: b'E', secret: false }], n_errors: if $invalid { 1 } else { 0 } };
+            let mut seq = seq0;
+            let mut collector = ToolCallCollector;
+            let req = OpenResponsesStreamRequest { http: &http, config: &config, workspace_root: &root.0, session_id: "s", payload, request_index: kani::any(),
+                                                   request_kind: "k", seq: &mut seq, sink: EventSink { w: wp, _p: core::marker::PhantomData }, collector: &mut collector };
+            let r = stream_request_head(req);
+            let w = unsafe { &*wp };
+            assert!(w.frame_seqs_ok && seq == seq0 + w.frames as u64, "the request's frames do not carry consecutive seq values / the counter does not advance by the number of frames");
+            assert!(!w.secret_in_frame, "the api key or a secret header value reaches an event frame");
+            assert!(!w.secret_in_dump, "the api key or a secret header value reaches the request dump");
+            if $invalid {
+                assert!(w.posts == 0 && w.sends == 0, "a request that fails schema validation was sent");
+                assert!(r.is_err(), "a request that fails schema validation is not reported as an error");
+                assert!(w.frames == 1 && w.validation_frames == 1, "a refused request does not leave exactly one provider-event frame with its errors");
+                assert!(w.dumps == 0, "a refused request was dumped as if it had been sent");
+            } else if w.dump_answer == 2 {
+                assert!(w.sends == 0 && r.is_err(), "the request was sent although its dump failed");
+            } else {
+                assert!(w.posts == 1 && w.sends == 1, "a valid request is not sent exactly once");
+                assert!(w.sent_body == b'B', "the body sent is not the validated payload's body");
+                assert!(w.started_frames == 1 && w.started_before_send, "the request-started frame does not precede the send");
+                assert!(w.sent_auth.is_some() == has_key, "the api key is not attached to the outgoing request exactly when configured");
+                if let Some(a) = w.sent_auth {
+                    assert!(a.id == b'k', "something else than the configured key is sent as bearer token");
+                }
+                assert!(w.sent_headers == 1 && w.sent_header_value.map(|v| v.id) == Some(b'h'), "the configured headers are not attached to the outgoing request");
+                assert!(r.is_ok() == w.send_ok, "the transport outcome is misreported");
+                assert!(w.transport_error_frames == if w.send_ok { 0 } else { 1 }, "a transport error does not leave exactly one error frame");
+            }
+            kani::cover!(if $invalid { w.validation_frames == 1 } else { r.is_ok() }, "request refused with its validation frame / request sent");
+            kani::cover!(r.is_err(), "request refused or failed");
+            core::mem::forget(r);
+        }
+    };
+}
+c16_gate!(c16_gate_invalid_payload, true);
+c16_gate!(c16_gate_valid_payload, false);
+// the same runs, registered under C19 for their taint assertions ("the api key or a secret header value reaches ...")
+c16_gate!(c19_key_flow_invalid_payload, true);
+c16_gate!(c19_key_flow_valid_payload, false);
